@@ -108,12 +108,14 @@ func (p *printer) newline() {
 	p.w.WriteByte('\n')
 	// here-documents of the line which ends here
 	for i := p.base; i < len(p.stack); i++ {
-		for _, r := range p.stack[i] {
+		// a body may print newlines by itself
+		list := p.stack[i]
+		p.stack[i] = nil
+		for _, r := range list {
 			p.word(r.Heredoc)
 			p.word(r.Delim)
 			p.w.WriteByte('\n')
 		}
-		p.stack[i] = nil
 	}
 }
 
